@@ -1,7 +1,10 @@
 #!/usr/bin/env python3
 """coverage.py [tier] — how much of the code each property is anchored in do the correspondence runs execute?
 One-off analysis tool (not part of any check): builds the harness with `-C instrument-coverage` on the nightly toolchain into
-/tmp/cov, pipes the generated cases of every property through it, and prints line coverage of the anchored files."""
+/tmp/cov, pipes the generated cases of every property through it, and prints line coverage of the anchored files.
+Build first (LLVM_PROFILE_FILE keeps the instrumented proc-macros/build scripts from dropping *.profraw files into /repo):
+  cd /verif/harness && LLVM_PROFILE_FILE=/tmp/cov/raw/build-%p.profraw RUSTFLAGS='--cfg deep_causality_verif -C instrument-coverage' \
+      cargo +nightly build --offline --target-dir /tmp/cov/target"""
 import sys, os, json, random, subprocess, importlib, glob, re
 V = os.path.dirname(os.path.dirname(os.path.abspath(__file__)))
 sys.path.insert(0, os.path.join(V, 'checks'))
